@@ -27,6 +27,18 @@ CLAIMED = {
  "C20": dict(section="5/C20", technique="translator (debug guards and diagnostic holes of the page templates) + Lean 4 theorems (diagFree_sound by induction over renderings; decide +kernel over generated templates; debug precedence) + secret-token search on the real application",
     text="Proof: debug_precedence (override decides when non-empty, any letter case), C20_pages (with debug off no rendering of any ungated built-in page contains a character from a diagnostic hole), over templates regenerated from results.py each run; the dispatcher gate for /debug-info is covered by the request model (C20_route, once PoorModel.Wsgi is linked) and exercised on the implementation with secret tokens at every failure position, via request environ and process environment.",
     note="Trusted: Lean kernel; translator's diagnostic classification (handler[...], traceback lines, exc_*, server_software, uri_rule) and guard extraction; Poor.Debug.effectiveDebug; ASCII lower-casing for the 'on' comparison."),
+ "C01": dict(section="5/C01", technique="Lean 4 theorems (generic invariant of the request ladder proved once by case analysis + induction over the after-hook loop, instantiated for well-formedness and for non-declining programs; decide over the generated reason table) + differential correspondence + environ fuzzing oracle",
+    text="Proof: the model of __request__ (Poor.Wsgi.run) is a total function into answered(one start_response call)|silent for every configuration, program (user callables are a universally quantified oracle), construction outcome and dispatch exit; C01_wellformed: every answer has a status from the generated reason table with that reason, three digits, and latin-1 (str,str) headers; C01_silent_reason: if no callable declines or raises a connection-level error, an answer is always produced. Tied to wsgi.py/response.py/results.py by running the real Application with recording callables on the same (configuration, program) lines and comparing trace, status, headers and body; plus arbitrary environ dicts against a richer app (oracle only).",
+    note="Trusted: Lean kernel; hand-written model Poor.Wsgi/Poor.Response; Gen.Reasons (regenerated); harness/wsgi_common.py. Request construction is modelled by the stage at which it raises; 'bounded time' = totality of the model + C09; lazily iterated user generators are outside the model."),
+ "C03": dict(section="5/C03", technique="Lean 4 theorems (induction over the hook lists: runBefore_all/stop, dispatch_order/stopped, runAfter_same/replace/fail) + differential correspondence on self-recorded hook traces + trace-shape oracle",
+    text="Proof: for every program and every number of hooks, the before hooks run once each in registration order at the head of every dispatch exit (hit, 405, 404, 403, file, directory, debug page, default), stop at the first that raises with no later hook and no endpoint; the after-hook loop runs on whatever response preAfter produced, each hook receiving the previous result, the client receiving the last result, and a failing hook (exception or garbage) ends the loop with the error response. Tied to wsgi.py by comparing the self-recorded traces of real hooks with the model's trace on the product of hook behaviours x request kinds.",
+    note="Trusted: Lean kernel, model Poor.Wsgi (the 11 handler_from_before call sites are one runBefore step in `dispatch`; the correspondence run is what ties that to the source), harness/c03.py."),
+ "C04": dict(section="5/C04", technique="Lean 4 theorems (equational characterisation of the exception ladder by simp/case analysis; first_matching_handler from List.find?) + differential correspondence + reference resolver oracle",
+    text="Proof: abort_user_handler / abort_builtin_page / abort_not_implemented / abort_with_response / abort_special, first_matching_handler + exception_user_handler / exception_unhandled, status_handler_failure / status_handler_garbage / exception_handler_failure (degrade to the 500 page), C04_after_independent (the conversion takes no after program and does not change with nAfter) - for every configuration and program. Correspondence over abort codes x handler tables x class hierarchy x handler orders x return shapes x nested failures to depth 3 x after hooks; oracle = independent resolver written from the property text, all 9 methods.",
+    note="Trusted: Lean kernel, model Poor.Wsgi, class hierarchy as a fixed isinstance relation on ids, harness/c04.py. abort(0) declines, abort(200) is an empty 204 (make_response's documented special cases)."),
+ "C05": dict(section="5/C05", technique="Lean 4 theorems (case analysis of to_response/make_response and of emission) + differential correspondence + direct value-vs-wire oracle",
+    text="Proof: C05 - C05_headers (for every response object of every class: emitted headers = the object's headers, unchanged and in order, plus Content-Type/Content-Length only when absent, never for 204/304/no-content; body = the object's chunks in order) and the value cases (str/bytes, JSON text for dict/list incl. {} and [], None -> 204, iterables, tuple form, junk -> ResponseError, response objects untouched). Tied to response.py by emitting real values and response objects of every class and comparing status line, ordered header list and body bytes.",
+    note="Trusted: Lean kernel, model Poor.Response, harness/c05.py; JSON fidelity rests on json.loads(json.dumps(v)) == v (sampled by the oracle)."),
 }
 
 def check(pid):
